@@ -123,6 +123,9 @@ func main() {
 			}
 		}
 	}()
+	if *prop == "C11" {
+		witnessLocateStep0()
+	}
 	var cur []Case
 	emit := func(c Case) {
 		cur = append(cur, c)
@@ -149,6 +152,35 @@ func main() {
 	if err := rep.Write(*outPath); err != nil {
 		fmt.Fprintln(os.Stderr, err)
 		os.Exit(3)
+	}
+}
+
+// witnessLocateStep0 reproduces, safely, the deviation that keeps Locate on typed data with a step of 0
+// out of the case streams: with max = 2 the loop that never advances stops after two copies.
+func witnessLocateStep0() {
+	done := make(chan []string, 1)
+	go func() {
+		defer func() {
+			if r := recover(); r != nil {
+				done <- []string{"panic"}
+			}
+		}()
+		var got []string
+		for _, l := range (Path{fSlice(1, 0, 0)}).expr(true).Locate([]int64{5, 6, 7}, 2) {
+			got = append(got, l.String())
+		}
+		done <- got
+	}()
+	c := &Case{p: Path{fSlice(1, 0, 0)}, t: nArr(nInt(5), nInt(6), nInt(7)), src: "witness"}
+	select {
+	case got := <-done:
+		rep.AddEval(1, 1)
+		if len(got) != 0 {
+			knownFinding("C11-locate-typed-step0", "locate:rslice.struct:step0", "Locate on a typed slice with step 0 (max 2) returns "+strings.Join(got, " ")+", Get returns nothing", c,
+				map[string]any{"rep": "rslice.struct", "evaluator": "locate", "impl": strings.Join(got, ";"), "max": 2})
+		}
+	case <-time.After(10 * time.Second):
+		finding("violation", "locate:rslice.struct:step0-hang", "Locate on a typed slice with step 0 and max 2 does not return", c, nil)
 	}
 }
 
@@ -276,6 +308,30 @@ func produce(emit func(Case)) {
 			add(Path{}, t, "enum", allReps)
 		}
 		rep.Exhaustive = append(rep.Exhaustive, fmt.Sprintf("all paths of length <= %d over an alphabet of %d fragments (every kind) x %d small trees", maxLen, len(alpha), len(trees)))
+	}
+	// 3b. boundary families named by the properties
+	if on("bound") {
+		i := nInt
+		deep := nArr(nArr(i(1)), nArr(nObj("a", i(5))), nObj("a", nArr(nObj("a", i(7)))))
+		wide := nObj("a", nArr(i(1), nArr(i(2))), "b", nObj("a", i(3)), "c", nArr(nObj("a", i(4))))
+		for _, t := range []*Node{deep, wide, nArr(), nObj(), i(5), nArr(nNull()), nArr(i(1), nArr(nArr(nArr(i(9)))))} {
+			for _, p := range []Path{
+				{fWild(), fDescent(), fChild("a")}, // descent after a multi-selection
+				{fUnion(int64(1), int64(0)), fDescent(), fChild("a")},
+				{fFilter("@ != null"), fDescent(), fChild("a")}, // a filter hands on non-containers
+				{fDescent(), fDescent(), fChild("a")},
+				{fDescent(), fWild(), fDescent(), fNth(0)},
+				{fNth(0), fDescent()}, {fWild(), fDescent()}, {fDescent()}, // trailing descents (C05 only)
+				{fSlice(3, 2, 5), fChild("x")}, {fSlice(0, -1)}, {fSlice(5, 0, -1)}, {fSlice(2, -4, -3)},
+				{fSlice(-4, -2, -4), fWild()}, {fSlice(0, maxEnd, -1)}, {fSlice(2, maxEnd, -1)},
+				{fUnion(int64(-4), "a", int64(3))}, {fUnion(int64(0), int64(0))}, {fUnion(int64(5), int64(0))},
+				{fNth(0), fUnion(int64(-1), int64(5))},
+				{fFilter("@ == null")}, {fFilter("@ > 1")},
+				{},
+			} {
+				add(p, t, "boundary", allReps)
+			}
+		}
 	}
 	// 4. seeded random paths x random trees
 	if on("rand") {
